@@ -341,9 +341,7 @@ class MySQLHandshakeV10(MySQLPacketBase):  # pylint: disable=too-many-instance-a
     capabilities = attr.ib(validator=attr.validators.deep_iterable(
         member_validator=attr.validators.instance_of(MySQLCapability),
     ))
-    character_set = attr.ib(
-        default=MySQLCharacterSet.UTF8, validator=attr.validators.optional(attr.validators.in_(MySQLCharacterSet))
-    )
+    character_set = attr.ib(default=MySQLCharacterSet.UTF8, validator=attr.validators.in_(MySQLCharacterSet))
     states = attr.ib(default=attr.Factory(set), validator=attr.validators.deep_iterable(
         member_validator=attr.validators.instance_of(MySQLStatusFlag),
     ))
